@@ -815,7 +815,10 @@ fn conc_mode(inputs: &[Value], seed: u64, si: usize, sn: usize, out: &mut TraceO
                 let nth = inp["nth"].as_u64().unwrap_or(3);
                 let nkeys = inp["keys"].as_u64().unwrap_or(12) as usize;
                 let vlen = inp["vlen"].as_u64().unwrap_or(10) as usize;
-                let cfg = json!({"concurrency": 2, "max_file_size": inp["max_file"].as_u64().unwrap_or(100),
+                // one reader per get and two to spare: a get that waits for the shard the merger holds keeps
+                // its reader, and with a smaller pool two such gets would make all later ones wait for a
+                // reader (which keys share the merger's shard differs from process to process)
+                let cfg = json!({"concurrency": nkeys + 2, "max_file_size": inp["max_file"].as_u64().unwrap_or(100),
                                  "merge": {"thresholds": {"fragmentation": 0.0, "dead_bytes": 0, "small_file": 1_000_000_000u64}}});
                 let kv = make_config(&dir, &cfg).open().expect("open");
                 let h = kv.get_handle();
